@@ -76,6 +76,7 @@ export const TEXT_PROBES = [
   { id: "exclude-from-any", text: "type A = { a: 1 };\ntype B = { b: 2 };\ntype X = { v: Exclude<any, A | B> };", cases: [[{ v: "s" }, "Y"], [{ v: fn0 }, "Y"], [{}, "Y"]] },
   { id: "value-annotation-does-not-see-outer-type-parameters", text: "type T = number;\ndeclare const x: T[];\ntype W<T> = { b: typeof x; c: T };\ntype X = W<string>;", cases: [[{ b: [1], c: "s" }, "Y"], [{ b: ["s"], c: "s" }, "N"]] },
   { id: "declared-type-named-like-a-built-in", text: "type Date = { y: number };\ntype X = { d: Date };", cases: [[{ d: { y: 1 } }, "Y"], [{ d: new globalThis.Date(0) }, "N"]] },
+  { id: "typeof-literal-spreading-a-record", text: "declare const extras: { [k: string]: number };\nconst o = { ...extras };\ntype X = typeof o;", expect: "diagnostic" },
   { id: "tuple-rest-in-the-middle", text: "type X = [string, ...number[], boolean];", expect: "diagnostic" },
   { id: "mapped-type-as-clause", text: 'type X = { [K in "a" | "b" as `x_${K}`]: string };', expect: "diagnostic" },
   { id: "optional-key-named-like-a-prototype-member", text: "type X = { toString?: string; a: number };", cases: [[{ a: 1 }, "Y"], [{ a: 1, toString: "s" }, "Y"], [{ a: 1, toString: 1 }, "N"]] },
